@@ -212,8 +212,8 @@ class Gen:
             feats.add('dump-shared')
         return ts, items, b, dump
 
-    def item(self, pool_struct=None, pool_enum=None, density=0.35, enum_p=0.5):
-        """returns (request, meta)"""
+    def plan(self, pool_struct=None, pool_enum=None, density=0.35, enum_p=0.5):
+        """a random item plus the trait list to request for it"""
         feats = set()
         is_enum = self.chance(enum_p)
         pool = (pool_enum or BOTH) if is_enum else (pool_struct or (BOTH + STRUCT_ONLY))
@@ -240,26 +240,42 @@ class Gen:
                 needs.update(ft.needs)
             feats.add('struct')
             it = sx.struct('X', fs, attrs=tattrs, vis=self.pick(VIS), gen=self.generics(needs, feats))
+        plan = dict(item=it, items=items, shared_bound=sb, shared_dump=sdump, traits=ts, enum=is_enum,
+                    feats=feats)
+        return plan
+
+    def item(self, **kw):
+        """returns (request, meta): random entry point, list possibly split"""
+        plan = self.plan(**kw)
         mode = 'attr' if self.chance(0.5) else 'derive'
-        feats.add(mode)
-        for t in set(ts):
-            feats.add('trait-' + t)
-        # split the list over the macro argument and extra #[derive_ex] attributes
-        split = self.chance(0.25) and len(items) > 1
-        if split:
-            feats.add('split-list')
-            cut = 1 + self.r.randrange(len(items) - 1)
-            lists = [items[:cut], items[cut:]]
-        else:
-            lists = [items]
-        extra = [sx.a_derive_ex(sx.dx(l, bnd=sb, dump=sdump)) for l in lists[1:]]
-        if mode == 'attr':
-            it = _prepend_attrs(it, extra)
-            req = sx.inv_attr(sx.dx(lists[0], bnd=sb, dump=sdump), it)
-        else:
-            it = _prepend_attrs(it, [sx.a_derive_ex(sx.dx(lists[0], bnd=sb, dump=sdump))] + extra)
-            req = sx.inv_derive(it)
-        return req, dict(features=tuple(sorted(feats)), traits=ts, enum=is_enum)
+        cuts = []
+        if self.chance(0.25) and len(plan['items']) > 1:
+            cuts = [1 + self.r.randrange(len(plan['items']) - 1)]
+        return assemble(plan, mode, cuts)
+
+
+def assemble(plan, mode, cuts=(), items=None, extra_feats=()):
+    """build the request for a plan: entry point `mode`, trait list split at `cuts`"""
+    items = plan['items'] if items is None else items
+    sb, sdump = plan['shared_bound'], plan['shared_dump']
+    feats = set(plan['feats']) | set(extra_feats) | {mode}
+    for t, _ in items:
+        feats.add('trait-' + t)
+    lists, prev = [], 0
+    for c in list(cuts) + [len(items)]:
+        lists.append(items[prev:c])
+        prev = c
+    if len(lists) > 1:
+        feats.add('split-list')
+    it = plan['item']
+    extra = [sx.a_derive_ex(sx.dx(l, bnd=sb, dump=sdump)) for l in lists[1:]]
+    if mode == 'attr':
+        it = _prepend_attrs(it, extra)
+        req = sx.inv_attr(sx.dx(lists[0], bnd=sb, dump=sdump), it)
+    else:
+        it = _prepend_attrs(it, [sx.a_derive_ex(sx.dx(lists[0], bnd=sb, dump=sdump))] + extra)
+        req = sx.inv_derive(it)
+    return req, dict(features=tuple(sorted(feats)), traits=[t for t, _ in items], enum=plan['enum'])
 
 
 def _prepend_attrs(item_s, attrs):
